@@ -121,6 +121,13 @@ func fingerprint(req *pb.BulkRequest) []byte {
 
 // wait sleeps d on the simulated clock or until ctx is done; returns ctx.Err() in the latter case.
 func simWait(ctx context.Context, d time.Duration) error {
+	// (decided here, not by a select with two ready cases, whose choice is the runtime's)
+	if err := ctx.Err(); err != nil {
+		return err
+	}
+	if d <= 0 {
+		return nil
+	}
 	t := verifsim.BeforeBlock(5)
 	tm := time.NewTimer(d)
 	var err error
@@ -259,7 +266,9 @@ func (r *c09Runner) script() {
 		}
 	}
 	cfg := circuitbreaker.Config{
-		Timeout:                  time.Duration(c.TimeoutMs) * time.Millisecond,
+		// (7 us / 500.001 us below: deadlines never fall on the same instant as a reply, whose latencies are whole
+		// milliseconds; which of two timers of one instant fires first is the runtime's choice, not the scheduler's)
+		Timeout:                  time.Duration(c.TimeoutMs)*time.Millisecond + 7*time.Microsecond,
 		NumBuckets:               10,
 		BucketWidth:              time.Second,
 		RequestVolumeThreshold:   c.VolumeThr,
@@ -310,7 +319,7 @@ func (r *c09Runner) store(client *bulk.SeqDBClient, ci, no, size int, hot, cold 
 	if !r.calm {
 		switch {
 		case r.c.CtxMs > 0:
-			ctx, cancel = context.WithTimeout(ctx, time.Duration(r.c.CtxMs)*time.Millisecond)
+			ctx, cancel = context.WithTimeout(ctx, time.Duration(r.c.CtxMs)*time.Millisecond+500*time.Microsecond+time.Nanosecond)
 			r.res.Fired["request_deadline"]++
 		case r.c.CtxMs < 0:
 			ctx, cancel = context.WithCancel(ctx)
